@@ -7,13 +7,42 @@ import math
 from fractions import Fraction
 import numpy, scipy, scipy.special
 import lib
-from lib import qlit, qseq
 
 F = Fraction
 
 
+def _is_cx(v):
+    return isinstance(v, (complex, numpy.complexfloating))
+
+
+def qlit(v):
+    """Coq literal: Qc for a real value, Q(i) (QciField.ci) for a complex one"""
+    if _is_cx(v):
+        return '(ci %s %s)' % (lib.qlit(lib.frac(float(v.real))), lib.qlit(lib.frac(float(v.imag))))
+    return lib.qlit(v)
+
+
+def qseq(vs):
+    return '[:: ' + '; '.join(qlit(v) for v in vs) + ']' if len(vs) else '[::]'
+
+
 def _f(v):
+    """exact value of a NumPy/SciPy result: Fraction for a real, the complex number itself (both parts dyadic) for a complex one"""
+    if _is_cx(v):
+        return complex(v)
     return lib.frac(float(v))
+
+
+# functions whose Taylor propagation is exercised at COMPLEX base points as well (NumPy evaluates them there; away from branch cuts)
+COMPLEX_OK = ('exp', 'expm1', 'log', 'log1p', 'sqrt', 'sin', 'cos', 'tan', 'arcsin', 'arccos', 'arctan', 'sinh', 'cosh', 'tanh',
+              'reciprocal', 'square', 'negative', 'pow_nat', 'pow_negint')
+
+
+def gen_x0_complex(rng, fn):
+    """a base point off the real axis, inside the domain of analyticity (branch cuts lie on the axes)"""
+    re = F(rng.choice([-2, -1.5, -1.25, -0.75, -0.25, 0.25, 0.5, 1.25, 1.5, 2]))
+    im = F(rng.choice([-1.25, -1, -0.5, 0.5, 1, 1.25]))
+    return complex(float(re), float(im))
 
 
 class Fn:
@@ -157,6 +186,8 @@ def m_sign(xs, x0, prm):
 
 def m_powr(xs, x0, prm):
     r = prm['r']
+    if _is_cx(x0):
+        return '(powS %s %s %s)' % (qseq(xs), qlit(complex(r)), qlit(_f(x0 ** r)))
     return '(powS %s %s %s)' % (qseq(xs), qlit(_f(r)), qlit(_f(float(x0) ** r)))
 
 
@@ -200,7 +231,7 @@ reg(Fn('pow_real', POS, m_powr, call='pow', routes=('op', 'algopy'),
 reg(Fn('pow_negint', NZ, m_powr, call='pow', routes=('op', 'algopy'),
        params=lambda rng: dict(r=rng.choice([-1, -2, -3]))))
 reg(Fn('pow_nat', [(F(-3), F(3))], m_pown, call='pow', routes=('op', 'algopy'),
-       params=lambda rng: dict(n=rng.choice([0, 1, 2, 3, 4, 5, 6]))))
+       params=lambda rng: dict(n=rng.choice([0, 1, 2, 3, 4, 5, 6, 7, 8]))))
 reg(Fn('botched_clip', [(F(-3), F(3))], m_clip, call='special', routes=('special', 'classmethod'),
        params=lambda rng: dict(lo=rng.choice([-1.125, -0.625, 0.125]), hi=rng.choice([0.375, 0.875, 1.625]))))
 
@@ -258,8 +289,6 @@ def gen_x0(rng, fn, prm):
         v = F(rng.randint(int(lo * den), int(hi * den)), den)
         if lo <= v <= hi:
             if fn.name == 'botched_clip' and (v == F(prm['lo']) or v == F(prm['hi'])):
-                continue
-            if fn.name == 'pow_nat' and v == 0:
                 continue
             return v
 
